@@ -28,9 +28,10 @@ ASSUMPTIONS = [
     "outside this property's quantifier)",
 ]
 FLOORS = {"quick": {"evaluations": 900, "field_comparisons": 6000, "uihb_transitions": 100,
-                    "history_operations": 300},
+                    "history_operations": 300, "replies_judged_after_late_answer": 150},
           "thorough": {"evaluations": 1000000, "field_comparisons": 3000000,
-                       "uihb_transitions": 50000, "history_operations": 100000}}
+                       "uihb_transitions": 50000, "history_operations": 100000,
+                       "replies_judged_after_late_answer": 50000}}
 
 NETNAMES = {"NETID_MAINNET": "mainnet", "NETID_TESTNET": "testnet", "NETID_REGTEST": "regtest"}
 
@@ -205,6 +206,8 @@ def run_state(acc, cseed, platform, fw, nets, cmpf, Stack, SimDevice):
         # random data, so anything remembered from before shows up as a difference
         if platform != "sgx":
             history(acc, rng, s, dev, fw, cmpf, case, netname != "invalid")
+        if platform == "ledger" and netname != "invalid":
+            late_answers(acc, rng, s, dev, fw, cmpf, case, hb, pubkeys, uihb)
     # ---- uiHeartbeat over mode transitions (Ledger only: needs app switching)
     if platform != "ledger":
         return
@@ -333,6 +336,84 @@ def history(acc, rng, s, dev, fw, cmpf, case, params_ok):
             cmpf("getPubKey.pubKey:after-" + name, reply.get("pubKey"),
                  dev.pubkeys[path_to_binary(p)].hex(), c2)
         acc.distinct.add("history|%s" % name)
+
+
+def late_answers(acc, rng, s, dev, fw, cmpf, case, hb, pubkeys, uihb):
+    """one exchange is answered later than the host's time-out (the answer still arrives on
+    the HID queue).  The request it belongs to may fail (-905) but may not report other
+    data; the requests after it are judged the same way: an error code, or the device's
+    own data for *that* request"""
+    from ..simdev.transport import Fault
+    dev.state = {"hashes": {hid: art(rng, 32) for hid in fw.values()}, "difficulty": 7,
+                 "flags": (0, 0, 0)}
+    pa, pb = rng.sample(ALL_PATHS, 2)
+    ud = rng.randbytes(16)
+    victims = {
+        "getPubKey": ({0x04: Fault("late")},
+                      {"command": "getPubKey", "version": 5, "keyId": pa}),
+        "signerHeartbeat.sig": ({(0x60, 2): Fault("late")},
+                                {"command": "signerHeartbeat", "version": 5, "udValue": ud.hex()}),
+        "signerHeartbeat.msg": ({(0x60, 3): Fault("late")},
+                                {"command": "signerHeartbeat", "version": 5, "udValue": ud.hex()}),
+        "blockchainState": ({0x20: Fault("late")}, {"command": "blockchainState", "version": 5}),
+        # (the device is left in the UI heartbeat app: only the request itself is judged)
+        "uiHeartbeat.sig": ({(0x60, 2): Fault("late")},
+                            {"command": "uiHeartbeat", "version": 5,
+                             "udValue": rng.randbytes(32).hex()}),
+        "uiHeartbeat.msg": ({(0x60, 3): Fault("late")},
+                            {"command": "uiHeartbeat", "version": 5,
+                             "udValue": rng.randbytes(32).hex()}),
+    }
+    vname = rng.choice(sorted(victims))
+    plan, req = victims[vname]
+    c2 = dict(case, late_answer_in=vname)
+
+    def judge(what, request, reply, exc):
+        acc.count("replies_judged_after_late_answer")
+        if exc is not None or not isinstance(reply, dict) or \
+                type(reply.get("errorcode")) is not int:
+            acc.violation("late-answer:no-verdict:%s" % what, {"reply": reply,
+                                                                "exc": repr(exc)}, c2)
+            return
+        if reply["errorcode"] != 0:
+            return
+        cmd = request["command"]
+        ok = True
+        if cmd == "getPubKey":
+            ok = reply.get("pubKey") == pubkeys[path_to_binary(request["keyId"])].hex()
+        elif cmd in ("signerHeartbeat", "uiHeartbeat"):
+            h = hb if cmd == "signerHeartbeat" else uihb
+            sig = reply.get("signature") or {}
+            ok = (reply.get("pubKey") == h["pubkey"].hex() and
+                  reply.get("message") == h["message"].hex() and
+                  reply.get("tweak") == h["tweak"].hex() and
+                  int(sig.get("r", "0") or "0", 16) == int(h["rs"][0] or "0", 16) and
+                  int(sig.get("s", "0") or "0", 16) == int(h["rs"][1] or "0", 16))
+        elif cmd == "blockchainState":
+            st = reply.get("state", {})
+            for field, fwname in fwconst.STATE_FIELD_TO_FW.items():
+                node = st
+                for part in field.split("."):
+                    node = node.get(part) if isinstance(node, dict) else None
+                ok = ok and node == dev.state["hashes"][fw[fwname]].hex()
+        if not ok:
+            acc.violation("late-answer:reply-0-with-data-of-another-exchange:%s" % what,
+                          {"reply": str(reply)[:300]}, c2)
+    s.bus.arm_cmd(plan)
+    r, e, _ = s.request(req)
+    s.bus.arm_cmd({})
+    judge("the-request-itself:" + vname, req, r, e)
+    acc.distinct.add("late|%s" % vname)
+    if vname.startswith("uiHeartbeat"):
+        return
+    followers = [{"command": "getPubKey", "version": 5, "keyId": pb},
+                 {"command": "blockchainState", "version": 5},
+                 {"command": "getPubKey", "version": 5, "keyId": pa}]
+    rng.shuffle(followers)
+    for f in followers[:2]:
+        r, e, _ = s.request(f)
+        judge("next-request:" + f["command"], f, r, e)
+    acc.distinct.add("late|%s" % vname)
 
 
 def _hb_fail(d, apdu):
